@@ -412,9 +412,24 @@ fn first_is_incoming(ev: &[Option<Event>; 3], want: &Packet) -> bool {
 }
 
 pub fn step_in_puback(max: u16) {
+    step_in_puback_with(max, false)
+}
+
+pub fn step_in_puback_failure(max: u16) {
+    step_in_puback_with(max, true)
+}
+
+/// `failure`: the broker acknowledges with a failure reason code (MQTT 5).  The publish is finally
+/// acknowledged either way: the slot and the window must be freed and a collision parked on that
+/// id must be resolved exactly as for a successful acknowledgement.
+pub fn step_in_puback_with(max: u16, failure: bool) {
     let (mut st, pre) = arb_state(max, kani::any());
     let id = any_id(max);
-    let pkt = Packet::PubAck(PubAck::new(id, None));
+    let mut ack = PubAck::new(id, None);
+    if failure {
+        ack.reason = PubAckReason::QuotaExceeded;
+    }
+    let pkt = Packet::PubAck(ack);
     let r = st.handle_incoming_packet(pkt.clone());
     let (ev, nev) = drain_events(&mut st);
     let post = snapshot(&mut st, max);
@@ -488,6 +503,36 @@ pub fn step_in_pubrec(max: u16) {
     }
     kani::cover!(max < 2 || pre.rel[id as usize], "id reused while its previous release was still pending");
     }
+    core::mem::forget(r);
+    core::mem::forget(ev);
+    core::mem::forget(st);
+    core::mem::forget(pkt);
+}
+
+/// PUBREC with a failure reason code (MQTT 5): the broker rejects the QoS2 publish, the exchange
+/// is over.  The slot and the window must be freed (no release becomes pending), and a collision
+/// parked on that id must be resolved.
+pub fn step_in_pubrec_failure(max: u16) {
+    let (mut st, pre) = arb_state(max, kani::any());
+    let id: u16 = kani::any();
+    kani::assume(id >= 1 && id <= max && pre.slot[id as usize].is_some() && !pre.rel[id as usize]);
+    let mut rec = PubRec::new(id, None);
+    rec.reason = PubRecReason::QuotaExceeded;
+    let pkt = Packet::PubRec(rec);
+    let r = st.handle_incoming_packet(pkt.clone());
+    let (ev, nev) = drain_events(&mut st);
+    let post = snapshot(&mut st, max);
+    assert!(nev >= 1 && first_is_incoming(&ev, &pkt), "C10: received packet not surfaced first, exactly once");
+    assert!(r.is_ok(), "C10: a rejected publish is not a protocol error");
+    if matches!(pre.coll, Some(c) if c.pkid == id) {
+        assert!(post.slot[id as usize] == pre.coll && post.coll.is_none(), "C07: collision on the freed id not resolved");
+    } else {
+        assert!(post.slot[id as usize].is_none(), "C07: rejected publish still held");
+    }
+    assert!(!post.rel[id as usize], "C07: a rejected QoS2 publish must not leave a release pending");
+    check_held(&pre, &post, Some(id), None);
+    check_inv(&post);
+    kani::cover!(matches!(pre.coll, Some(c) if c.pkid == id), "a collision was parked on the rejected id");
     core::mem::forget(r);
     core::mem::forget(ev);
     core::mem::forget(st);
@@ -774,6 +819,8 @@ v5_steps! {
     in_puback_m1: step_in_puback(1), 6;
     in_puback_m2: step_in_puback(2), 6;
     in_puback_m3: step_in_puback(3), 7;
+    in_puback_failure_m2: step_in_puback_failure(2), 6;
+    in_pubrec_failure_m2: step_in_pubrec_failure(2), 6;
     in_pubrec_m1: step_in_pubrec(1), 6;
     in_pubrec_m2: step_in_pubrec(2), 6;
     in_pubrec_m3: step_in_pubrec(3), 7;
